@@ -761,7 +761,7 @@ def _fs_change(payload, kind, seed, step):
             fh.truncate(C09_PL + 7)
     elif kind == "rewrite":
         # same size, other bytes, and the old timestamps put back: invisible to anything keyed on stat()
-        t = j(payload, "sub", "c.dat") if isdir else payload
+        t = j(payload, "sub", "deep", "d.bin") if isdir else payload
         st = os.stat(t)
         dst = os.stat(os.path.dirname(t))
         with open(t, "r+b") as fh:
